@@ -1943,6 +1943,11 @@ def add_peripheral_compartment(model: Model, name: str = None):
 
     elimination_rate = odes.get_flow(central, output)
     assert elimination_rate is not None
+    if elimination_rate == 0:
+        # Drug metabolite model: the drug is eliminated into the metabolite compartment
+        metabolite = odes.find_compartment('METABOLITE')
+        if metabolite is not None and metabolite != central:
+            elimination_rate = odes.get_flow(central, metabolite)
     if has_mixed_mm_fo_elimination(model):
         elimination_rate = Expr(sympy.expand(elimination_rate).args[0])
     cl, vc = elimination_rate.as_numer_denom()
